@@ -349,6 +349,8 @@ def r12c(chk, rid='R12.c'):
             ok = (rel, q) in STATE_WRITERS[st]
             if st == 'raiseExceptions' and rel == PARSE and q.startswith('CSSParser.') and q.count('.') == 1:
                 ok = True  # every CSSParser method that writes the flag is subject to the pairing rule R12.a
+            if st == '_TOKENIZER_CACHE' and rel == 'cssutils/tokenize2.py' and q.startswith('Tokenizer.') and q.count('.') == 1:
+                ok = True  # the tokenizer's own keyed cache, whichever of its methods fills it; that the key is the content of the tables is R12.f
             if st == 'savedTokens' and rel == PROD and q.startswith('ProdParser.') and q.count('.') == 1:
                 ok = True  # the production parser itself (its private helpers included); the reset is R12.d
             chk.ob(rid, rel, q, f'writes {st}: {text(node)[:70]}', ok,
